@@ -79,6 +79,7 @@ let summary () =
   Printf.printf "D dispatch_ok=%s\n" (b01 (dispatch_ok u));
   List.iter (fun ((n, mk), _) -> Printf.printf "K %s %s\n" (of_coq n) (b01 mk)) u.u_callback_classes;
   Printf.printf "D callback_classes_ok=%s\n" (b01 (callback_classes_ok u));
+  Printf.printf "D wrappers_ok=%s\n" (b01 (wrappers_ok chain_gen u));
   Printf.printf "D derefs_ok=%s sites=%d\n" (b01 (derefs_ok u)) (List.length u.u_derefs);
   List.iter (fun ((f, sn), ok) -> if not ok then Printf.printf "X %s | %s\n" (of_coq f) (of_coq sn)) u.u_derefs;
   print_endline "END"
